@@ -212,7 +212,7 @@ def run_case(arg):
             if not (type(e).__name__ == "RuntimeError" and "binding energy" in str(e)):
                 viols.append((f"C09:summary-config-error:{type(e).__name__}", f"{label}: NetworkConfiguration raised {e!r}", None))
         # Enzo patch and the render command on a slice
-        if via == "reaction" and idx % (7 if tier == "quick" else 3) == 0:
+        if via == "reaction" and (idx % (7 if tier == "quick" else 3) == 0 or any(n in ("E", "e-") for n, _, _ in entries)):
             from naunet.patches import EnzoPatch
 
             out = Path(tempfile.mkdtemp(dir=scratch()))
@@ -224,6 +224,12 @@ def run_case(arg):
                 adef = re.findall(r"^#define\s+(A_\S+)\s+(\S+)\s*$", txt, re.M)
                 body = txt[txt.index("A_Table") :]
                 rows = re.findall(r"\b(A_[^\s,]+)", body[body.index("{") : body.index("}")])
+                # ENZO_NSPECIES = |network species U the 12 Grackle species| - 1 (electron), by species identity
+                grackle_ids = {"electron", "H", "H+", "He", "He+", "He++", "H-", "H2", "H2+", "D", "D+", "HD"}
+                want = len({i for _, _, i in entries} | grackle_ids) - 1
+                m = re.search(r"^#define\s+ENZO_NSPECIES\s+(\S+)\s*$", txt, re.M)
+                if not m or m.group(1) != str(want):
+                    viols.append((f"C09:enzo-nspecies", f"{label}: ENZO_NSPECIES = {m.group(1) if m else None}, expected {want} (network and Grackle species counted once each, electron excluded)", None))
                 if len(adef) != base[2] or len(rows) != base[2]:
                     viols.append((f"C09:enzo-count", f"{label}: {len(adef)} A_ macros / {len(rows)} table rows for NSPECIES={base[2]}", None))
                 if [a for a, _ in adef] != rows:
@@ -297,7 +303,7 @@ def run(ctx):
     ctx.assumptions += [
         "species identity of the reference: spellings e-/E are one species, '#H' and 'GH'(surface_prefix G) are one species, every other pool name is its own species",
         "identifier legality: ^[A-Za-z_][A-Za-z0-9_]*$ and not a Python keyword",
-        "Enzo patch: count, order, distinctness and legality of the A_<alias> table are judged; grackle aliases intentionally differ from the macro aliases",
+        "Enzo patch: count, order, distinctness and legality of the A_<alias> table and the ENZO_NSPECIES count (network U Grackle species by identity, minus the electron) are judged; grackle aliases intentionally differ from the macro aliases",
     ]
     return {
         "evaluations": nart + ncli,
